@@ -556,16 +556,19 @@ def elem_target(t, aliases):
     return None
 
 
+_CENV = {}          # parameter decl id -> constant argument, while a helper is analysed at one of its call sites
+
+
 def is_zero(node, d):
     try:
-        return ceval.ev(node, ceval.Ctx(d)) == 0
+        return ceval.ev(node, ceval.Ctx(d, dict(_CENV))) == 0
     except (ceval.Unknown, ceval.UB):
         return False
 
 
 def const_value(node, d):
     try:
-        return ceval.ev(node, ceval.Ctx(d))
+        return ceval.ev(node, ceval.Ctx(d, dict(_CENV)))
     except (ceval.Unknown, ceval.UB):
         return None
 
@@ -667,6 +670,20 @@ def ctor_initial_state(d, inst, fn, W):
 
 def rule_canon(rep, inst, shift_flows, R="C03.canon"):
     d, W = inst.d, inst.W
+    from .. import fstring as fs_
+    # non-public helpers that other members call are judged through their callers (they may rely on the caller to clean up afterwards)
+    called_ids = set()
+    for _, _, f_ in inst.fns:
+        for x_ in ir.walk_expr(f_):
+            if x_.get("kind") == "CXXMemberCallExpr":
+                c_ = ir.strip(ir.ekids(x_)[0])
+                if c_.get("kind") == "MemberExpr" and c_.get("referencedMemberDecl"):
+                    called_ids.add(c_.get("referencedMemberDecl"))
+    access_of = {}
+    for _, _, f_ in inst.fns:
+        cls_ = ir.enclosing_class(d, f_)
+        if cls_ is not None and id(cls_) not in access_of:
+            access_of[id(cls_)] = fs_.member_access(cls_)
     for cname, kind, fn in inst.fns:
         if cname not in CLASSES:
             continue
@@ -678,17 +695,41 @@ def rule_canon(rep, inst, shift_flows, R="C03.canon"):
             continue            # member-wise helper constructor: callers are analysed
         if fn.get("isImplicit") or fn.get("explicitlyDefaulted"):
             continue            # member-wise copy/move of a canonical object
-        aliases = buffer_alias_locals(fn)
-        linit, _ = locals_init(fn)
+        cls_ = ir.enclosing_class(d, fn)
+        acc_ = access_of.get(id(cls_), {}).get(fn.get("id"), "public") if cls_ is not None else "public"
+        if acc_ != "public" and fn.get("kind") == "CXXMethodDecl" and fn.get("id") in called_ids and nm not in KNOWN_HELPER_NAMES:
+            rep.note("%s is non-public: judged through its callers" % lab)
+            continue
         is_ctor = fn.get("kind") == "CXXConstructorDecl"
         state0, why0 = (ctor_initial_state(d, inst, fn, W) if is_ctor else (CLEAN, "invariant at entry"))
         try:
-            paths = flow.function_paths(fn, with_ctor_inits=False)
+            verdict, nev, npaths, _ = canon_analyse(d, inst, fn, state0, why0, shift_flows, 0)
         except cj.AnalysisBroken as e:
             rep.inconclusive(R, lab, "paths", where=d.where(fn), detail=str(e))
             continue
+        if verdict is None:
+            rep.holds(R, lab, "last block canonical at every exit", where=d.where(fn), detail="%d paths, %d block/size events; starts %s (%s)" % (npaths, nev, state0, why0),
+                      nontrivial=nev > 0 or state0 != CLEAN)
+        elif verdict[0] == DIRTY:
+            rep.violates(R, lab, "last block canonical at every exit", where=d.where(verdict[2]),
+                         detail="a path leaves the function with bits >= size() possibly set: %s, and no zero_unused_bits() follows" % verdict[1])
+        else:
+            rep.inconclusive(R, lab, "last block canonical at every exit", where=d.where(verdict[2]), detail="cannot classify: %s" % verdict[1])
+
+
+KNOWN_HELPER_NAMES = set()
+
+
+def canon_analyse(d, inst, fn, state0, why0, shift_flows, depth):
+    """typestate of the last block along every path of fn entered in state0 -> (worst non-clean exit (state, why, node) or None, events, paths, exit states)"""
+    W = inst.W
+    if True:
+        aliases = buffer_alias_locals(fn)
+        linit, _ = locals_init(fn)
+        paths = flow.function_paths(fn, with_ctor_inits=False)
         verdict = None
         nev = 0
+        exits = set()
         for path in paths:
             state, why, at = state0, why0, fn
             multiple = False          # size known to be a multiple of the block width: there are no unused bits
@@ -714,7 +755,30 @@ def rule_canon(rep, inst, shift_flows, R="C03.canon"):
                             a0 = ir.sx(ir.ekids(n)[1])
                             multiple = a0[0] == "bin" and a0[1] == "*" and (a0[2] in BPB or a0[3] in BPB)
                     elif tc not in READ_ONLY_CALLS:
-                        state, why, at = UNKNOWN, "call to %s() whose effect on the blocks is not tabulated" % tc, n
+                        c_ = ir.strip(ir.ekids(n)[0])
+                        tgt_ = d.by_id.get(c_.get("referencedMemberDecl")) if c_.get("kind") == "MemberExpr" else None
+                        if tgt_ is not None and ir.has_body(tgt_) and depth < 2:
+                            # a helper of the class: its effect on the last block is what its own paths do, with its constant arguments known
+                            saved = dict(_CENV)
+                            for p_, a_ in zip(ir.params(tgt_), ir.ekids(n)[1:]):
+                                try:
+                                    _CENV[p_.get("id")] = ceval.ev(a_, ceval.Ctx(d, dict(saved)))
+                                except (ceval.Unknown, ceval.UB):
+                                    _CENV.pop(p_.get("id"), None)
+                            try:
+                                v_, ne_, _, ex_ = canon_analyse(d, inst, tgt_, state, why, shift_flows, depth + 1)
+                            finally:
+                                _CENV.clear()
+                                _CENV.update(saved)
+                            nev += ne_
+                            if ex_ <= {CLEAN}:
+                                state, why, at = CLEAN, "%s() leaves the last block canonical" % tc, n
+                            elif DIRTY in ex_:
+                                state, why, at = DIRTY, "%s(): %s" % (tc, v_[1] if v_ else "may set bits >= size()"), n
+                            else:
+                                state, why, at = UNKNOWN, "%s(): %s" % (tc, v_[1] if v_ else "effect unknown"), n
+                        else:
+                            state, why, at = UNKNOWN, "call to %s() whose effect on the blocks is not tabulated" % tc, n
                     continue
                 cs = classify_store(n, d, inst, aliases, linit, shift_flows)
                 if cs is not None:
@@ -783,18 +847,12 @@ def rule_canon(rep, inst, shift_flows, R="C03.canon"):
                 continue
             if multiple and state == DIRTY:
                 state = CLEAN
+            exits.add(state)
             if state != CLEAN:
                 # multiples of the block width need no cleaning: recognise `resize(k * bits_per_block)` style exits
                 if verdict is None or (verdict[0] == UNKNOWN and state == DIRTY):
                     verdict = (state, why, at)
-        if verdict is None:
-            rep.holds(R, lab, "last block canonical at every exit", where=d.where(fn), detail="%d paths, %d block/size events; starts %s (%s)" % (len(paths), nev, state0, why0),
-                      nontrivial=nev > 0 or state0 != CLEAN)
-        elif verdict[0] == DIRTY:
-            rep.violates(R, lab, "last block canonical at every exit", where=d.where(verdict[2]),
-                         detail="a path leaves the function with bits >= size() possibly set: %s, and no zero_unused_bits() follows" % verdict[1])
-        else:
-            rep.inconclusive(R, lab, "last block canonical at every exit", where=d.where(verdict[2]), detail="cannot classify: %s" % verdict[1])
+        return verdict, nev, len(paths), exits
 
 
 # ---------------------------------------------------------------------------------------------------------------------
@@ -1565,6 +1623,13 @@ def rule_grow(rep, inst, R="C03.grow"):
             return times
 
         paths = flow.function_paths(fn, with_ctor_inits=False)
+        ref_locals = {}
+        for v_ in ir.walk_expr(fn):
+            if v_.get("kind") == "VarDecl" and ir.qtype(v_).rstrip().endswith("&") and ir.ekids(v_):
+                t_ = ir.sx(ir.ekids(v_)[-1])
+                while t_[0] == "cast":
+                    t_ = t_[3]
+                ref_locals[v_.get("name")] = t_
         bad = None
         npatch = 0
         for path in paths:
@@ -1594,8 +1659,14 @@ def rule_grow(rep, inst, R="C03.grow"):
                         size_store_at = i
                     if n.get("kind") == "CXXMemberCallExpr" and ir.sx(n)[0] == "call" and ir.sx(n)[1] == ("mem", ("mem", ("this",), "m_buffer"), "resize") and resize_at is None:
                         resize_at = i
-                    if n.get("kind") == "CompoundAssignOperator" and n.get("opcode") == "|=" and elem_target(ir.sx(ir.ekids(n)[0]), set()) is not None:
-                        patch = (n, i)
+                    if n.get("kind") == "CompoundAssignOperator" and n.get("opcode") == "|=":
+                        tl_ = ir.sx(ir.ekids(n)[0])
+                        while tl_[0] == "cast":
+                            tl_ = tl_[3]
+                        if tl_[0] == "ref" and tl_[1] in ref_locals:
+                            tl_ = ref_locals[tl_[1]]          # `block_type& last = m_buffer[k]; last |= ...` writes m_buffer[k]
+                        if elem_target(tl_, set()) is not None:
+                            patch = (n, i, tl_)
             # facts of the path on canonical terms
             b_true = None
             extra_nonzero = None
@@ -1636,10 +1707,10 @@ def rule_grow(rep, inst, R="C03.grow"):
             not_grows = linear.entails(facts, Lin({"old": 1, "new": -1}), ())
             if patch is not None:
                 npatch += 1
-                n, at = patch
+                n, at, tl_ = patch
                 t = ir.sx(n)
-                tgt, val = canon(t[2], lt), canon(t[3], lt)
-                raw_tgt, raw_val = t[2], t[3]
+                tgt, val = canon(tl_, lt), canon(t[3], lt)
+                raw_tgt, raw_val = tl_, t[3]
                 if not (b_true and grows and extra_nonzero):
                     bad = (n, "the last-block patch runs on a path that did not establish b, n > old size and (old size %% W) != 0 (b=%s, grows=%s, extra bits != 0: %s): "
                               "its index is out of range after a shrink, or it sets bits that must stay clear" % (b_true, grows, extra_nonzero))
